@@ -361,6 +361,12 @@ def check_spatial_average(run, pkg):
     ok_copy = cg[0] == "call" and cg[1] in ("numpy.copy", ".copy", "numpy.array") and (cg[2] and cg[2][0] == ip)
     run.ob("R-ALG", fq, "start", True if ok_copy else (False if cg == ip else None), "accumulator starts as a copy of the input (the particle itself)", show(cg)[:80],
            witness=None if ok_copy else "the input array itself is accumulated into: the caller's data is modified and neighbours are read half-averaged", loc=fi.loc(), sound=True)
+    # "any per-particle property": the accumulator keeps the input's dtype.  A real floating type forced on it discards the
+    # imaginary part of a complex property (psi_l, Fourier amplitudes) with no more than a ComplexWarning.
+    forced = [(nm, x) for nm, x in dtype_casts(cg) if nm in ("numpy.float64", "builtins.float", "numpy.float32", "numpy.float16", "builtins.int", "numpy.int64", "numpy.int32")]
+    run.ob("R-ALG", fq, "start:dtype", not forced, "the accumulator has the dtype of the input property (real, complex, any rank)", show(cg)[:80] if forced else "dtype-preserving copy",
+           witness=None if not forced else f"{forced[0][0].split('.')[-1]} is forced on the copy: a complex scalar property (e.g. psi_6 = 0.3 + 0.4j) is averaged as 0.3 - the imaginary part of the mean is lost",
+           loc=fi.loc(), sound=True)
     st = [e for e in stores(it) if e.data["target"][1] == cg]
     adds = [e for e in st if e.data["op"] == "+"]
     divs = [e for e in st if e.data["op"] == "/"]
